@@ -1,1 +1,2 @@
+pub mod history;
 pub mod wire;
